@@ -17,7 +17,7 @@ REGISTER = True
 TECHNIQUE = ('Hypothesis property-based testing with harness-injected worker delays: one-vs-many differential - result i of '
              'compute_features_2d(axis=0) / BycycleGroup.fit must be bit-identical to compute_features on row i alone with row i\'s '
              'options - over shared / per-row option lists, n_jobs, progress, and perturbed worker completion orders')
-LEVEL_TEXT = ('Generated-input search (480 pool runs quick, 6k thorough) over 1-6 pairwise different rows (up to 12 rows with n_jobs=1, '
+LEVEL_TEXT = ('Generated-input search (320 pool runs quick, 6k thorough) over 1-6 pairwise different rows (up to 12 rows with n_jobs=1, '
               'where batching would matter), option dict / per-row lists (own centring, method, thresholds per row), n_jobs in '
               '{1, 2, rows, rows+3, -1}, progress None/"tqdm", return_samples (also contradicted inside the option dict) and per-row '
               'delays up to 60 ms (including reversed completion order). The OS schedule is perturbed, not enumerated.')
@@ -53,7 +53,8 @@ def strategy(draw, tier):
     return {'fs': band['fs'], 'f_range': band['f_range'], 'sigs': sigs, 'mode': mode, 'opts': opts, 'n_jobs': n_jobs,
             'delays': delays if not big else [0] * rows, 'progress': draw(st.sampled_from([None, None, 'tqdm'])),
             'return_samples': draw(st.sampled_from([True, True, False])), 'rs_in_dict': draw(st.sampled_from([None, None, True, False])),
-            'via': draw(st.sampled_from(['func', 'group'])), 'layout': draw(st.sampled_from(['C', 'C', 'C', 'F']))}
+            'via': draw(st.sampled_from(['func', 'group'])), 'layout': draw(st.sampled_from(['C', 'C', 'C', 'F'])),
+            'dtype': draw(st.sampled_from(['float64', 'float64', 'float64', 'float32', 'int64'])), 'refit': draw(st.booleans())}
 
 
 def check(case, rec):
@@ -62,6 +63,10 @@ def check(case, rec):
         raise RuntimeError('multiprocessing start method is not fork')
     fs, fr = case['fs'], tuple(case['f_range'])
     X = np.array([gen.render_signal(s) for s in case['sigs']])
+    if case.get('dtype') == 'float32':
+        X = X.astype(np.float32)            # row i alone is then a float32 signal as well
+    elif case.get('dtype') == 'int64':
+        X = np.round(X * 50).astype(np.int64)
     if case.get('layout') == 'F':
         X = np.asfortranarray(X)            # same values and shape, column-major memory
     rows = len(X)
@@ -100,6 +105,9 @@ def check(case, rec):
                 bg = guarded(BycycleGroup, center_extrema=o.get('center_extrema', 'peak'), burst_method=o.get('burst_method', 'cycles'),
                              burst_kwargs=o.get('burst_kwargs'), thresholds=o.get('threshold_kwargs'),
                              find_extrema_kwargs=o.get('find_extrema_kwargs'), return_samples=rs)
+                if case.get('refit'):
+                    # the same object was used before on other data
+                    with_timeout(lambda: guarded(bg.fit, np.ascontiguousarray(X[::-1][:max(1, rows - 1)]), fs, fr, axis=0, n_jobs=case['n_jobs']), 90)
                 with_timeout(lambda: guarded(bg.fit, X, fs, fr, axis=0, n_jobs=case['n_jobs'], progress=case['progress']), 90)
                 out, models = bg.df_features, bg.models
     finally:
@@ -127,9 +135,9 @@ def check(case, rec):
     differing_opts = mode == 'list' and any(per_row[i] != per_row[0] for i in range(rows))
     rec.label('rows:%s' % (rows if rows < 7 else '>=8'), 'mode:' + mode, 'n_jobs:%s' % ('-1' if case['n_jobs'] == -1 else ('1' if nj == 1 else ('>=rows' if nj >= rows else '2..rows-1'))),
               'reordered-completion' if reordered else 'in-order', 'via:' + via, 'progress:%s' % case['progress'],
-              'samples:%s' % rs, 'layout:%s' % case.get('layout', 'C'), 'distinct-rows' if distinct else 'duplicate-tables')
+              'samples:%s' % rs, 'layout:%s' % case.get('layout', 'C'), 'dtype:%s' % case.get('dtype', 'float64'), 'distinct-rows' if distinct else 'duplicate-tables')
     rec.nontrivial(rows >= 2 and distinct and (reordered or differing_opts))
 
 
-PARTS = [Part('group-2d', check, strategy=strategy, budget={'quick': 480, 'thorough': 6000}, shards={'quick': 16, 'thorough': 16},
+PARTS = [Part('group-2d', check, strategy=strategy, budget={'quick': 320, 'thorough': 6000}, shards={'quick': 16, 'thorough': 16},
               time_cap={'quick': 200, 'thorough': 3000})]
